@@ -396,6 +396,10 @@ func runC17(c *Ctx) {
 	if n := c.effectsRule("R7", []string{"QUIT"}); true {
 		r.Floor("R7", "QUIT effect call sites", n, 1)
 	}
+	r.Rule("R8", "the nick handlers see every 433, 001 and NICK line the server sends: in the receive goroutine every accepted line is handed to the event loop by a blocking send before the next read (shared with C03.R1) - a line given up on when the queue stays full for a while may be the client's own NICK confirmation")
+	if pf := c.producerFrame(); r.Anchor("R8", "the receive goroutine that feeds the inbound queue", pf != nil) {
+		c.handoverRule("R8", pf.Member)
+	}
 	r.Rule("R5", "the built-in handlers that keep the nick current (internal table: 001, 433, NICK) stay registered for the life of the client: no Remover obtained by registering an internal-table handler is ever invoked, whichever way tracking is switched")
 	c.trackerRules(map[string]string{"R3": "R4"})
 	c.positionalSplitRule("R6")
@@ -661,6 +665,7 @@ func runC18(c *Ctx) {
 	r.Rule("R2", "every dial call dials Config.Server; in the connect routine the only stores to it are JoinHostPort(Server, \"6697\") under SSL / \"6667\" otherwise, both on the !hasPort(Server) edge, before any dial")
 	r.Rule("R3", "the PING handler calls Pong(line.Args[0]); lines reach handlers whole (delimiter framing, shared with C03.R1)")
 	r.Rule("R4", "the ping goroutine is spawned exactly under PingFreq > 0; it pings on each tick of a ticker of period PingFreq")
+	r.Rule("R9", "PINGs of its own exactly when PingFreq is positive: the library never stores to Config.PingFreq of an existing Config (only while a Config is being constructed), so a configured 0 stays 0 at connect time")
 	r.Rule("R8", "PASS is sent exactly when the application set a password: inside the library Config.Pass of an existing Config is only ever stored with a value the API caller passed in (ConnectTo's argument) - never cleared or rewritten by the library")
 	r.Rule("R5", "the registration lines are the first the new connection sends: every successful connect starts from a newly made outbound (and inbound) queue on every path, so nothing queued during or before an outage precedes or duplicates PASS/NICK/USER (shared with C07.R4)")
 	c.freshQueuesRule("R5")
@@ -909,7 +914,7 @@ func runC18(c *Ctx) {
 					return
 				}
 				fv, base := fieldOf(st.Addr)
-				if fv != a.CfgPass || c.allOriginsLocalAlloc(base, fn) {
+				if fv != a.CfgPass || c.underConstruction(base, fn, 0) {
 					return
 				}
 				nP++
@@ -928,6 +933,28 @@ func runC18(c *Ctx) {
 			})
 		}
 		r.Add("R8", "pass-stores", "-", "", "stores to Config.Pass of an existing Config examined", true, fmt.Sprintf("%d stores", nP))
+	}
+	// client pings exactly when the application's PingFreq is positive
+	{
+		pf := c.FieldVar(c.Client, "Config", "PingFreq")
+		if r.Anchor("R9", "Config.PingFreq", pf != nil) {
+			nS := 0
+			for _, fn := range c.clientFuncs() {
+				funcInstrs(fn, func(in ssa.Instruction) {
+					st, ok := in.(*ssa.Store)
+					if !ok {
+						return
+					}
+					fv, base := fieldOf(st.Addr)
+					if fv != pf || c.underConstruction(base, fn, 0) {
+						return
+					}
+					nS++
+					r.Add("R9", "pingfreq-store:"+c.FuncKey(fn), c.InstrPos(st), c.FuncKey(fn), "the library does not change the application's PingFreq", false, "store to Config.PingFreq of an existing Config in "+c.FuncKey(fn)+": a configured 0 (no client pings) does not survive")
+				})
+			}
+			r.Add("R9", "no-pingfreq-store", "-", "", "no store to Config.PingFreq of an existing Config anywhere in package client", nS == 0, fmt.Sprintf("%d stores", nS))
+		}
 	}
 	// elsewhere the configured address is only ever replaced by a caller-supplied one: a port joined on outside the
 	// connect routine would freeze the default chosen with the SSL setting of that moment, not of connect time
@@ -1192,6 +1219,8 @@ func runC19(c *Ctx) {
 	if capFn == nil || authFn == nil {
 		return
 	}
+	r.Rule("R8", "held exactly when the latest acknowledgement enabled it: the capability set's Add stores false under name for a token \"-name\" (decided by HasPrefix(token, \"-\"), key token[1:]) and true under the token itself otherwise - nothing else decides, nothing is trimmed by character class")
+	c.capAddRule("R8")
 	r.Rule("R7", "Cap(END) said is CAP END sent: on every path through Cap on which no capability list was given, a line is handed to Raw - no state of the client (a count of pending requests, say) can hold the line back")
 	c.capAlwaysSendsRule("R7", capFn)
 	capCalls := func(fn *ssa.Function, sub string) []ssa.CallInstruction {
@@ -2569,4 +2598,69 @@ func (c *Ctx) capSendsViaBuilder(capFn *ssa.Function, list ssa.Value, sends func
 		return true, "Cap sends every line " + c.FuncKey(h) + " builds, and for an empty list that is a literal of at least one line", c.InstrPos(built)
 	}
 	return false, "", ""
+}
+
+// capAddRule: C19.R8 - the set's Add records "-name" as name disabled and any
+// other token as that token enabled, and nothing else.
+func (c *Ctx) capAddRule(rule string) {
+	r := c.R
+	capT := c.Named(c.Client, "capSet")
+	if !r.Anchor(rule, "capability set type", capT != nil) {
+		return
+	}
+	var add *ssa.Function
+	ms := c.SSA.MethodSets.MethodSet(types.NewPointer(capT))
+	for i := 0; i < ms.Len(); i++ {
+		if fn := c.SSA.MethodValue(ms.At(i)); fn != nil && c.capRole(fn) == "Add" {
+			add = fn
+		}
+	}
+	if !r.Anchor(rule, "the capability set's Add method", add != nil) {
+		return
+	}
+	n := 0
+	funcInstrs(add, func(in ssa.Instruction) {
+		mu, ok := in.(*ssa.MapUpdate)
+		if !ok {
+			return
+		}
+		n++
+		kc, isK := mu.Value.(*ssa.Const)
+		if !isK || kc.Value == nil {
+			r.Add(rule, fmt.Sprintf("cap-add#%d", n), c.InstrPos(mu), c.FuncKey(add), "a token is recorded as enabled (true) or disabled (false) by a constant", false, "stored value is computed: "+mu.Value.String())
+			return
+		}
+		val := kc.Value.String() == "true"
+		// the dominating test HasPrefix(tok, "-")
+		var tok ssa.Value
+		pol, found := false, false
+		for _, cd := range CondsAt(mu.Block()) {
+			cd = unwrapNot(cd)
+			if call, isC := cd.V.(*ssa.Call); isC && calleeName(&call.Call) == "strings.HasPrefix" {
+				if p, okP := constString(call.Call.Args[1]); okP && p == "-" {
+					tok, pol, found = call.Call.Args[0], cd.True, true
+				}
+			}
+		}
+		ok2, why := false, ""
+		switch {
+		case !found:
+			why = "not decided by HasPrefix(token, \"-\")"
+		case val && !pol && mu.Key == tok:
+			ok2, why = true, "token without '-' -> enabled under its own name"
+		case !val && pol:
+			if sl, isS := mu.Key.(*ssa.Slice); isS && sl.X == tok && sl.High == nil {
+				if k, okK := constInt(sl.Low); okK && k == 1 {
+					ok2, why = true, "\"-name\" -> name disabled"
+				}
+			}
+			if !ok2 {
+				why = "disabled under a key other than the token without its '-'"
+			}
+		default:
+			why = fmt.Sprintf("value %v stored on the HasPrefix(token, \"-\") == %v edge under key %s", val, pol, mu.Key.String())
+		}
+		r.Add(rule, fmt.Sprintf("cap-add#%d", n), c.InstrPos(mu), c.FuncKey(add), "Add records \"-name\" as name disabled and any other token as enabled", ok2, why)
+	})
+	r.Floor(rule, "map updates in the capability set's Add", n, 2)
 }
